@@ -70,6 +70,10 @@ fn seqx_main(args: &Args) -> i32 {
             seqx_run_type::<Box<String>>(&property, thorough, shard, &mut counter, state_cap);
             seqx_run_type::<Vec<Vec<u8>>>(&property, thorough, shard, &mut counter, state_cap);
             seqx_run_type::<(String, Option<String>)>(&property, thorough, shard, &mut counter, state_cap);
+            seqx_run_type::<Option<Vec<u8>>>(&property, thorough, shard, &mut counter, state_cap);
+            seqx_run_type::<Vec<Option<String>>>(&property, thorough, shard, &mut counter, state_cap);
+            seqx_run_type::<(String, String, String)>(&property, thorough, shard, &mut counter, state_cap);
+            seqx_run_type::<Vec<(String, u8)>>(&property, thorough, shard, &mut counter, state_cap);
         }
     }
     if property == "C16" && thorough {
@@ -161,6 +165,10 @@ fn seqx_replay(path: &str, property: &str) -> i32 {
         "Result<String,String>" => seqx_replay_typed::<Result<String, String>>(spec, &hist, property),
         "(String,Vec<u8>)" => seqx_replay_typed::<(String, Vec<u8>)>(spec, &hist, property),
         "Box<String>" => seqx_replay_typed::<Box<String>>(spec, &hist, property),
+        "Vec<(String,u8)>" => seqx_replay_typed::<Vec<(String, u8)>>(spec, &hist, property),
+        "(String,String,String)" => seqx_replay_typed::<(String, String, String)>(spec, &hist, property),
+        "Vec<Option<String>>" => seqx_replay_typed::<Vec<Option<String>>>(spec, &hist, property),
+        "Option<Vec<u8>>" => seqx_replay_typed::<Option<Vec<u8>>>(spec, &hist, property),
         "(String,Option<String>)" => seqx_replay_typed::<(String, Option<String>)>(spec, &hist, property),
         "Vec<Vec<u8>>" => seqx_replay_typed::<Vec<Vec<u8>>>(spec, &hist, property),
         "(u8,u8,String)" => seqx_replay_typed::<(u8, u8, String)>(spec, &hist, property),
